@@ -100,6 +100,9 @@ PROPS["C06"] = dict(
     legs=[
         Leg("alloc", RT_SRC, "fast", ["--prop", "C06", "--depth", "3", "--starts", "fresh,alloc=0,alloc=1,alloc=2,arp=1,arp=1 alloc=1,nearfull chips=2,nearfull chips=3 arp=1,nearfull chips=8"],
             ["--prop", "C06", "--depth", "5", "--starts", "fresh,alloc=0,alloc=1,alloc=2,arp=1,arp=1 alloc=1,nearfull chips=2,nearfull chips=3 arp=1,nearfull chips=8"], timeout_thorough=14000),
+        # full chips with a channel shared by a key-down note and a later pedal-held note, and a single pedal-held note elsewhere (the rating of a channel is the sum over its users)
+        Leg("shared", RT_SRC, "fast", ["--prop", "C06", "--depth", "3", "--starts", "sharedheld chips=1,sharedheld chips=2 alloc=1,sharedheld chips=1 alloc=2,sharedheld chips=3 alloc=0"],
+            ["--prop", "C06", "--depth", "4", "--starts", "sharedheld chips=1,sharedheld chips=2 alloc=1,sharedheld chips=1 alloc=2,sharedheld chips=3 alloc=0,sharedheld chips=2 arp=1"]),
         # same exploration with every release time of the bank x30 (3 s .. 9 s tails): idle channels are still releasing when the next note-on is scored
         Leg("longrelease", RT_SRC, "fast", ["--prop", "C06", "--koff-scale", "30", "--depth", "3", "--starts", "fresh,alloc=0,alloc=1,alloc=2,nearfull chips=2,nearfull chips=1 arp=1"],
             ["--prop", "C06", "--koff-scale", "30", "--depth", "4", "--starts", "fresh,alloc=0,alloc=1,alloc=2,arp=1,nearfull chips=2,nearfull chips=1 arp=1,nearfull chips=3"]),
